@@ -64,6 +64,22 @@ extern ssize_t mpt_queue_push(MPT_STRUCT(encode_queue) *qu, size_t len, const vo
 	}
 	from.iov_base = (void *) base;
 	from.iov_len  = len;
+	
+	/* message deletion on aligned data, start must still be in queue */
+	if (len && !base) {
+		MPT_STRUCT(encode_state) save = qu->_state;
+		mpt_queue_align(&qu->data, 0);
+		vec.iov_base = qu->data.base;
+		vec.iov_len  = qu->data.max;
+		push = qu->_enc(&qu->_state, &vec, &from);
+		done = qu->_state.done + qu->_state.scratch;
+		if (push < 0 || done > qu->data.len) {
+			qu->_state = save;
+			return push < 0 ? push : MPT_ERROR(MissingData);
+		}
+		qu->data.len = done;
+		return push;
+	}
 	dest = qu->data.base;
 	
 	/* clean aligned data */
